@@ -8,3 +8,4 @@ import MiniconfVerif.Props.C04
 #print axioms MiniconfVerif.C04.packed_form_resolves
 #print axioms MiniconfVerif.C04.path_text_roundtrip
 #print axioms MiniconfVerif.C04.jsonpath_text_roundtrip
+#print axioms MiniconfVerif.C04.source_key_find_is_model
